@@ -41,6 +41,7 @@ def run(ctx):
             for _, n in common.tree_nodes(r["ok"]):
                 ctx.count("node:" + n["c"])
             oracle(ctx, q, t)
+            parsing.parsed_again_after_edit(ctx, ctx.rng, q, t, oracle)
 
 
 def replay(ctx, rep):
